@@ -2,7 +2,7 @@
 
 COMMON_NOTE = ("Trusted base: Lean 4.33 kernel; axioms ⊆ {propext, Classical.choice, Quot.sound} (audited each run); "
                "hand-written executable model tied to /repo by the correspondence run in the same check; "
-               "generated tables (harness/gen_tables.py). ")
+               "generated tables and call skeletons of the protocol functions, regenerated from the source on every run (harness/gen_tables.py, harness/gen_skeleton.py; source_* theorems). ")
 
 CLAIMED = {
     "C09": {
